@@ -1,4 +1,6 @@
 import EpdVerif.AuditCmd
 import EpdVerif.Props.C01
+import EpdVerif.Props.E2EAll
 import EpdVerif.Props.Panels
 #audit_namespace EpdVerif.Props.C01
+#audit_namespace EpdVerif.Props.E2E
